@@ -350,7 +350,7 @@ def run(ck, F):
                     ck.violation("R3", key, ev.site,
                                  f"struct `{gname}`: members can carry prefix {og.nf_str(pf[1])[:90]} but the struct's namespaces map has only "
                                  f"{[og.nf_str(k)[:50] for k, _ in ns_keys]}: inherited members / refs into another namespace use an undeclared prefix", fn=short)
-    ck.floor("R2", "serialized struct templates", n_groups, 5)
+    ck.floor("R2", "serialized struct templates", n_groups, 3)
     # ---- R5
     rule_carrier(ck, X)
     rule_member_order(ck, F)
